@@ -131,6 +131,9 @@ def prepare(hist, tmp, tag):
 
 
 # ---------------------------------------------------------------- cuts
+FORCE_CUTS = []        # (k, nb) cuts that must be part of the enumeration (replay of a shrunk case)
+
+
 def enumerate_cuts(ctx, rng, tier, limit=None):
     """list of (k, nb, nontrivial, returned, canonical cut)."""
     evs = ctx.rr.events
@@ -172,7 +175,7 @@ def enumerate_cuts(ctx, rng, tier, limit=None):
             for nb in range(1, len(e[3])):
                 a = e[2] + nb
                 c = (k, nb, True, returned, (ci, off + nb))
-                if exhaustive or a in hot:
+                if exhaustive or a in hot or [k, nb] in FORCE_CUTS:
                     cuts.append(c)
                 else:
                     interior.append(c)
@@ -181,8 +184,8 @@ def enumerate_cuts(ctx, rng, tier, limit=None):
     if interior:
         cuts += rng.sample(interior, min(nrand, len(interior)))
     if limit and len(cuts) > limit:
-        keep = [c for c in cuts if c[1] is None]
-        rest = [c for c in cuts if c[1] is not None]
+        keep = [c for c in cuts if c[1] is None or [c[0], c[1]] in FORCE_CUTS]
+        rest = [c for c in cuts if c[1] is not None and [c[0], c[1]] not in FORCE_CUTS]
         cuts = keep + rng.sample(rest, max(0, min(len(rest), limit - len(keep))))
     cuts.sort(key=lambda c: (c[0], -1 if c[1] is None else c[1]))
     return cuts
@@ -242,6 +245,8 @@ def judge(task):
                 sig = 'C01:ltid-of-discarded-tail'
             elif mode == 'read-only' and best[1] == ['iterator'] and d.get('iterator') == 'err:CorruptedDataError':
                 sig = 'C01:ro-iterator-raises-on-short-tail'
+            elif best[1] == ['iterator_start'] and any(isinstance(x, str) for x in d.get('iterator_start', [])):
+                sig = 'C01:ro-iterator-start-raises-on-torn-tail'
             return None, (sig, '%s reopen of the crash image shows a state that is not that of any prefix '
                           'of the committed transactions; closest prefix n=%d differs on %s (e.g. %s: got %s, '
                           'prefix has %s)' % (mode, best[0], best[1][:6], best[1][0],
@@ -407,6 +412,8 @@ def load_corpus():
                 with open(os.path.join(CORPUS, fn)) as f:
                     j = json.load(f)
                 cases.append((fn, j.get('case', j)['history']))
+                if j.get('case', j).get('cut'):
+                    FORCE_CUTS.append(list(j.get('case', j)['cut']))
     return cases
 
 
@@ -421,6 +428,8 @@ def main(argv=None):
         with open(ck.replay_path) as f:
             j = json.load(f)
         hists = [('replay', j['case']['history'])]
+        if j['case'].get('cut'):
+            FORCE_CUTS.append(list(j['case']['cut']))
     else:
         hists += load_corpus()
         if tier == 'quick':
